@@ -1,4 +1,5 @@
 """C19 — admin operations reach the right broker and report its verdict."""
+from decgen_tie import run_decgen
 
 
 def run(c):
@@ -19,6 +20,7 @@ def run(c):
     if not c.coq_make():
         return
     c.coq_properties()
+    run_decgen(c, "C19")
     b = c.go_build("c19corr")
     if not b:
         return
